@@ -105,10 +105,38 @@ func drainIter(w *h.Worker, nxt trie.NextRaw, limit int) (out []kv, msg string) 
 	return out, ""
 }
 
+// oracleC04: the scan oracle, and around it the fact that scans are reads: what
+// the instance marshals is the same before and after all the scans, and every
+// retained key is still found with its value.
 func oracleC04(w *h.Worker, b *h.Built, inst string, st *trie.SlimTrie, u *inputSpec) *h.Viol {
 	if !b.Opt.IsComplete() {
 		return refusalC04(w, b, st)
 	}
+	m0, err0 := st.Marshal()
+	if v := oracleC04Scans(w, b, inst, st, u); v != nil {
+		return v
+	}
+	m1, err1 := st.Marshal()
+	w.Trans += 2
+	w.Tick()
+	if (err0 == nil) != (err1 == nil) || !bytes.Equal(m0, m1) {
+		return &h.Viol{Sig: "scan-modifies-trie", Msg: fmt.Sprintf("the instance marshals differently after the scans than before (lengths %d, %d, first difference at %d): a scan wrote into the trie", len(m0), len(m1), firstDiff(m0, m1))}
+	}
+	for _, i := range b.Kept {
+		var v interface{}
+		var found bool
+		if p := h.Safely(func() { v, found = st.Get(b.Keys[i]) }); p != nil {
+			return &h.Viol{Sig: "scan-modifies-trie", Msg: fmt.Sprintf("after the scans Get(%s) panics: %v", briefQ(b.Keys[i]), p)}
+		}
+		w.Trans++
+		if !found || (b.Decoded != nil && !b.AllEmpty && b.Enc != "Dummy" && !eqVal(v, b.WantVal(i))) {
+			return &h.Viol{Sig: "scan-modifies-trie", Msg: fmt.Sprintf("after the scans Get(%s) = (%v,%v): a retained key is no longer found with its value", briefQ(b.Keys[i]), v, found)}
+		}
+	}
+	return nil
+}
+
+func oracleC04Scans(w *h.Worker, b *h.Built, inst string, st *trie.SlimTrie, u *inputSpec) *h.Viol {
 	n := len(b.Kept)
 	starts := u.qs
 	if len(starts) == 0 {
@@ -447,10 +475,10 @@ func runC04(r *h.Run) {
 	p.u85k, p.shiftScafK = 2, 1 // the scan oracle costs about 10x a lookup oracle per trie
 	p.shortQuick = []int{2}
 	if r.Tier == "quick" {
-		keep := map[string]bool{"lift3": true, "bigroot-in": true, "bigroot-mid": true, "big2-in": true, "big2-under": true, "short2": true, "short2-mixed": true, "shift3": true, "shift30": true, "bigpair0": true, "bigpair1": true, "bigpair2": true, "bigpair3": true, "bignib": true, "bigalias": true}
+		keep := map[string]bool{"tailsweep": true, "lift3": true, "bigroot-in": true, "bigroot-mid": true, "big2-in": true, "big2-under": true, "short2": true, "short2-mixed": true, "shift3": true, "shift30": true, "bigpair0": true, "bigpair1": true, "bigpair2": true, "bigpair3": true, "bignib": true, "bigalias": true}
 		p.scaffoldFilter = func(n string) bool { return keep[n] }
 	}
-	r.Rule = "all 16 option combinations + no-Opt form over the key/value space of C03 (id: K(U21,3) quick / K(U21,5) thorough; scaffolds over K(U21,2); K(U85,2), 130 shift offsets over K(U21,1) and large families in thorough); complete tries: NewIter as a state machine from every start of Q x both inclusivities x withValue (next() until nil, then 3 more calls), ScanFrom likewise, callback returning false after every j = 0..n from every start of the neighbourhood set E, ScanFromTo over E x E (thorough: E x Q) x 4 inclusivity combinations, and every interleaving of the next() calls of two iterators with result lists <= 3; encoders I32 everywhere, String16 and VarEnc (variable / zero width) on small sets, and no values; incomplete tries: ScanFrom, ScanFromTo and NewIter must panic before yielding anything (empty incomplete trie: panic or empty scan). Oracle: the slice of the sorted retained list selected by the bounds with Encode(v) bytes"
+	r.Rule = "all 16 option combinations + no-Opt form over the key/value space of C03 (id: K(U21,3) quick / K(U21,5) thorough; scaffolds over K(U21,2); K(U85,2), 130 shift offsets over K(U21,1) and large families in thorough); complete tries: NewIter as a state machine from every start of Q x both inclusivities x withValue (next() until nil, then 3 more calls), ScanFrom likewise, callback returning false after every j = 0..n from every start of the neighbourhood set E, ScanFromTo over E x E (thorough: E x Q) x 4 inclusivity combinations, and every interleaving of the next() calls of two iterators with result lists <= 3; encoders I32 everywhere, String16 and VarEnc (variable / zero width) on small sets, and no values; incomplete tries: ScanFrom, ScanFromTo and NewIter must panic before yielding anything (empty incomplete trie: panic or empty scan). Oracle: the slice of the sorted retained list selected by the bounds with Encode(v) bytes; scans are reads: the instance marshals to the same bytes after all scans as before and still finds every retained key"
 	r.Assumptions = append([]string{"keys and values are copied on receipt (documented as temporary slices)", "nil and empty value bytes are interchangeable"}, commonAssumptions...)
 	thorough := r.Tier == "thorough"
 	phases := buildPhases(r, p)
